@@ -546,7 +546,7 @@ Lemma dec_list_eq f p et flags old b :
   tlet (h, r) <- r_list p b in
   let '(n, lt) := h in
   let lt := if lt =? c_TRUE then c_BOOL else lt in
-  if negb (type_of et =? lt) then (if has_flag flags f_strict then TErr EMismatch else TOk (old, r)) else
+  if negb (type_of et =? lt) then (if has_flag flags f_strict then TErr EMismatch else tlet r <- skip_items f p lt n r in TOk (old, r)) else
   if n <? 0 then TErr EOther else lloop f p et flags (S (length r)) n [] r.
 Proof. reflexivity. Qed.
 Lemma dec_set_eq f p kt flags old b :
@@ -556,7 +556,7 @@ Lemma dec_set_eq f p kt flags old b :
   let lt := if lt =? c_TRUE then c_BOOL else lt in
   if n <? 0 then TErr EOther else
   if n =? 0 then TOk (TvSet true [], r) else
-  if negb (type_of kt =? lt) then (if has_flag flags f_strict then TErr EMismatch else TOk (TvSet true [], r)) else
+  if negb (type_of kt =? lt) then (if has_flag flags f_strict then TErr EMismatch else tlet r <- skip_items f p lt n r in TOk (TvSet true [], r)) else
   stloop f p kt flags (S (length r)) n [] r.
 Proof. reflexivity. Qed.
 Lemma dec_map_eq f p kt vt flags old b :
@@ -565,8 +565,8 @@ Lemma dec_map_eq f p kt vt flags old b :
   let '(n, mk, mv) := h in
   if n <? 0 then TErr EOther else
   if n =? 0 then TOk (TvMap true [], r) else
-  if negb (type_of kt =? mk) then (if has_flag flags f_strict then TErr EMismatch else TOk (TvMap true [], r)) else
-  if negb (type_of vt =? mv) then (if has_flag flags f_strict then TErr EMismatch else TOk (TvMap true [], r)) else
+  if negb (type_of kt =? mk) then (if has_flag flags f_strict then TErr EMismatch else tlet r <- skip_entries f p mk mv n r in TOk (TvMap true [], r)) else
+  if negb (type_of vt =? mv) then (if has_flag flags f_strict then TErr EMismatch else tlet r <- skip_entries f p mk mv n r in TOk (TvMap true [], r)) else
   mloop f p kt vt flags (S (length r)) n [] r.
 Proof. reflexivity. Qed.
 
@@ -612,7 +612,11 @@ Definition sloop (f : nat) (p : proto) (fs : list tfield) (flags : Z) :=
               let seen := slot :: seen in
               let fexp := type_of (fld_ty fd) in
               if negb (fty =? fexp) && negb ((fty =? c_TRUE) && (fexp =? c_BOOL)) then
-                (if has_flag flags f_strict then TErr EMismatch else loop k' r id (nfields + 1) vs seen)
+                (if has_flag flags f_strict then TErr EMismatch else
+                   tlet r <- dont_expect_eof
+                               (if ((fty =? c_TRUE) || (fty =? c_BOOL)) && is_compact p
+                                then TOk r else skip f p fty r) in
+                   loop k' r id (nfields + 1) vs seen)
               else
               let oldf := nth i vs (zero_of (fld_ty fd)) in
               if is_compact p && ((fty =? c_TRUE) || (fty =? c_BOOL)) then
@@ -662,7 +666,11 @@ Lemma sloop_S f p fs flags k' r last nfields vs seen :
               let seen := slot :: seen in
               let fexp := type_of (fld_ty fd) in
               if negb (fty =? fexp) && negb ((fty =? c_TRUE) && (fexp =? c_BOOL)) then
-                (if has_flag flags f_strict then TErr EMismatch else sloop f p fs flags k' r id (nfields + 1) vs seen)
+                (if has_flag flags f_strict then TErr EMismatch else
+                   tlet r <- dont_expect_eof
+                               (if ((fty =? c_TRUE) || (fty =? c_BOOL)) && is_compact p
+                                then TOk r else skip f p fty r) in
+                   sloop f p fs flags k' r id (nfields + 1) vs seen)
               else
               let oldf := nth i vs (zero_of (fld_ty fd)) in
               if is_compact p && ((fty =? c_TRUE) || (fty =? c_BOOL)) then
